@@ -185,4 +185,28 @@ AddrPortOK(kind, ip, zone, port, r) ==
          /\ r.fam = (IF Has4(ip) THEN "v4" ELSE "v6") /\ Len(r.b) = FamLen(r.fam)
          /\ r.zone = (IF r.fam = "v6" THEN zone ELSE "")
     ELSE ~r.ok
+
+(* ------------------------------------------------------------ no hidden state *)
+(* The conversions are functions of their arguments: the result of a call     *)
+(* depends on the VALUE of its arguments only - not on earlier or concurrent  *)
+(* calls - and no call modifies its arguments or any value it does not own.   *)
+(* The standard library's exported net.IP variables are such values; anyone   *)
+(* may pass them in, and they must still hold these bytes afterwards          *)
+(* (AddrConvState.tla shows how a conversion that appends to a slice of one   *)
+(* of them breaks both obligations).                                          *)
+G16(hi, lo) == <<hi \div 256, hi % 256, 0, 0, 0, 0, 0, 0, 0, 0, 0, 0, 0, 0, lo \div 256, lo % 256>>
+StdGlobals == [
+    IPv4zero                   |-> Pfx4in6 \o <<0, 0, 0, 0>>,
+    IPv4bcast                  |-> Pfx4in6 \o <<255, 255, 255, 255>>,
+    IPv4allsys                 |-> Pfx4in6 \o <<224, 0, 0, 1>>,
+    IPv4allrouter              |-> Pfx4in6 \o <<224, 0, 0, 2>>,
+    IPv6zero                   |-> G16(0, 0),
+    IPv6unspecified            |-> G16(0, 0),
+    IPv6loopback               |-> G16(0, 1),
+    IPv6interfacelocalallnodes |-> G16(65281, 1),        \* ff01::1
+    IPv6linklocalallnodes      |-> G16(65282, 1),        \* ff02::1
+    IPv6linklocalallrouters    |-> G16(65282, 2)]        \* ff02::2
+StdGlobalNames == DOMAIN StdGlobals
+(* The names of the globals holding exactly these bytes.                      *)
+GlobalsWithValue(b) == {n \in StdGlobalNames : StdGlobals[n] = b}
 =============================================================================
